@@ -850,7 +850,7 @@ class Runner(object):
         else:
             try:
                 v = f.lookup(*args, **kwds)
-                outcome = ['ret', repr(v)]
+                outcome = ['ret', srepr(v)]
             except KeyError:
                 outcome = ['exc', 'KeyError']
                 v = KeyError
@@ -880,6 +880,9 @@ class Runner(object):
                     if v is not KeyError:
                         self.violation('C18', 'lookup-absent-no-keyerror',
                                        'lookup of a non-resident call gave %r, expected KeyError' % (outcome,))
+            if op[0] == 'lookup' and not ok and v is not KeyError and not isinstance(v, Exception):
+                self.violation('C18', 'lookup-returned-for-unkeyable-call',
+                               'lookup of a call whose key cannot be built returned %r (nothing can be resident for it)' % (outcome,))
         return self.summarize(op, outcome, s1)
 
     # -- second instance on the same archive ------------------------------------------------------
@@ -1062,7 +1065,7 @@ def gen_case(rng, focus, nops=None):
             if t is not None and repr(t) not in [repr(x) for x in pool]:
                 pool.insert(rng.randrange(len(pool) + 1), t)
     if safe and b['kind'] in ('dict', 'null', 'dict_archive') and rng.random() < (0.7 if (focus == 'C16' or kk == 'raw') else 0.25) \
-            and focus not in ('C18', 'C20'):
+            and focus not in ('C20',):
         # un-keyable arguments: the safe decorators must degrade to plain evaluation
         hostile = [[1, 2], {'a': 1}, {'__s__': [1, 2]}, {'__h__': 'badrepr'}, {'__h__': 'badhash'},
                    {'__h__': 'badreduce'}, {'__d__': [[1, 2]]}, [[1], [2]]]
@@ -1112,7 +1115,7 @@ def gen_history(rng, focus, cfg, pool, n, ms):
     recent = []
     mgmt_p = {'C01': 0.15, 'C02': 0.15, 'C05': 0.2, 'C06': 0.03, 'C07': 0.1, 'C15': 0.25,
               'C16': 0.05, 'C18': 0.05, 'C20': 0.08}.get(focus, 0.1)
-    raise_p = {'C16': 0.25, 'C15': 0.08}.get(focus, 0.0)
+    raise_p = {'C16': 0.25, 'C15': 0.08, 'C06': 0.05, 'C05': 0.05, 'C01': 0.03, 'C02': 0.03, 'C07': 0.03}.get(focus, 0.0)
     intro_p = 0.3 if focus == 'C18' else 0.0
     weights = [1.0 / (j + 1) for j in range(len(pool))]
     pos = 0
